@@ -13,7 +13,10 @@ EXPLANATION = (
     "only Real payloads reach the file patch; (R5) direction duality: every branch on a PatchDirection whose arms select members of "
     "a dual pair (add/remove, new/old name, new/old permissions) selects opposite members, and create/delete dispatch is mirrored; "
     "(R6) the series parser skips blank/comment lines before option parsing, knows -p/--strip (with argument) and -R, and both "
-    "reach the SeriesPatch built for the line. Not decided: that exactly N components are removed for every path shape."
+    "reach the SeriesPatch built for the line. (R7) stripping draws exactly one leading component per unit of the entry's level - a loop over 0..level with "
+    "one Components::next() per iteration and none elsewhere, the rest taken with as_path() after the loop - from each name that is "
+    "present, in both representations of a name (owned / borrowed). Not decided: what Path::components() takes for a component (runs of "
+    "slashes, '.') and names with fewer than N components."
 )
 LEVEL_NOTE = "Undecided: Path::components semantics of stripping; behaviour when the name has fewer than N components."
 
@@ -70,6 +73,7 @@ def run(ck):
     r4(ck)
     r5(ck)
     r6(ck)
+    r7(ck)
 
 
 def r1(ck):
@@ -324,6 +328,100 @@ def r5(ck):
                 ("Delete", "Forward"): "apply_delete", ("Delete", "Revert"): "apply_create"}
         ck.require(table == want, "C16-R5", "create/delete dispatch mirrored under reversal",
                    "dispatch table of apply_internal is %s" % table, ai.where(), ok_detail=str(table))
+
+
+def r7(ck):
+    """C16-R7: stripping removes one leading component per unit of the entry's level, from both names: every place where a name is
+    replaced by the rest of its components is preceded by a loop over 0..level that draws exactly one component per iteration from
+    the components of that very name, and no component is drawn elsewhere.  (What Path::components() takes for a component - runs of
+    slashes, `.` - is std's business and not decided here.)"""
+    prog = ck.prog
+    rule = "C16-R7"
+    st = ck.anchor("FilePatch::<'a, Line>::strip")
+    pp = ck.anchor(A["parse_patch"])
+    if st is None or pp is None:
+        return
+    # parse_patch hands its own level to strip()
+    cs = calls_named(pp, "FilePatch::<'a, Line>::strip")
+    ck.floor(rule, "strip() calls in parse_patch", len(cs), 1)
+    for bb, t, c in cs:
+        e = df.operand_expr(pp, t["args"][1])
+        ck.require(isinstance(e, tuple) and e[0] == "param" and e[2] == "strip", rule, "file patches are stripped by the level parse_patch was given",
+                   "strip() is given %s" % df.show(e, 80), pp.where(t))
+    # both names go through the stripping code with that level
+    helpers = {}
+    names = set()
+    for fn in [st] + [f for f in prog.fns.values() if f.id.startswith(st.id + "::") and f.kind != "Closure"]:
+        helpers[fn.id] = fn
+    sites = []          # (function whose body strips, expression of the level there)
+    for bb, t in st.calls():
+        rp = callee_of(t).get("rpath") or ""
+        if rp in helpers and rp != st.id:
+            nm = df.operand_expr(st, t["args"][0])
+            lvl = df.operand_expr(st, t["args"][1]) if len(t["args"]) > 1 else None
+            for f in ("old_filename", "new_filename"):
+                if df.mentions(nm, lambda x: isinstance(x, tuple) and x[0] == "field" and x[2] == f):
+                    names.add(f)
+            ck.require(isinstance(lvl, tuple) and lvl[0] == "param" and lvl[2] == "strip", rule, "each name is stripped by the level of this entry",
+                       "%s is given level %s" % (rp.split("::")[-1], df.show(lvl, 60)), st.where(t))
+            sites.append(helpers[rp])
+            # ... whenever that name is present: from the Some edge of the test of this name every path to the end passes the call
+            for f in ("old_filename", "new_filename"):
+                if not df.mentions(nm, lambda x: isinstance(x, tuple) and x[0] == "field" and x[2] == f):
+                    continue
+                sws = [sw for sw in pt.discr_switches(st, lambda e, rv: True) if isinstance(sw["expr"], tuple) and sw["expr"][0] == "field" and sw["expr"][2] == f
+                       and sw["edges"].get("Some")]
+                always = bool(sws) and all(not [b for b in cfg.exits(st) if b in cfg.reachable(st, [sw["edges"]["Some"][1]], blocked={bb})] for sw in sws) and \
+                    all(cfg.dominates(st, sw["bb"], bb) for sw in sws) and \
+                    not [g for g in guards.find_bool_guards(st, lambda e: True) if bb in cfg.dominated_by_edge(st, g["true_edge"]) or bb in cfg.dominated_by_edge(st, g["false_edge"])]
+                ck.require(always, rule, "%s is stripped whenever it is present" % f,
+                           "the stripping of %s is skipped on some path where the name is there (it depends on more than the name being present)" % f, st.where(t))
+    if not sites:
+        sites = [st]
+        for f in ("old_filename", "new_filename"):
+            if df.adt_field_uses(st, "libpatch::patch::FilePatch") and any(nm == f for bb, nm in df.adt_field_uses(st, "libpatch::patch::FilePatch")):
+                names.add(f)
+    ck.require(names == {"old_filename", "new_filename"}, rule, "both names are stripped", "names reaching the stripping code: %s" % sorted(names), st.where())
+    nres = 0
+    for fn in {f.id: f for f in sites}.values():
+        level_param = [i for i in range(1, fn.arg_count + 1) if fn.local_ty(i) == "usize"]
+        comp_next = [(bb, t) for bb, t in fn.calls() if (callee_of(t).get("rpath") or "").endswith("Components<'a> as core::iter::traits::iterator::Iterator>::next")]
+        others = [(bb, t) for bb, t in fn.calls() if "std::path::Components" in (callee_of(t).get("rpath") or "") and
+                  (callee_of(t).get("rpath") or "").split("::")[-1] in ("next_back", "nth", "skip", "last", "rev", "nth_back")]
+        ck.require(not others, rule, "components are only drawn one by one from the front in %s" % fn.id.split("::")[-1],
+                   "other ways of consuming the components: %s" % [callee_of(t).get("rpath") for bb, t in others], fn.where())
+        loops = pt.iterator_loops(fn)
+        for bb, t in fn.calls():
+            if not (callee_of(t).get("rpath") or "").endswith("Components::<'a>::as_path"):
+                continue
+            nres += 1
+            comp = df.operand_expr(fn, t["args"][0])
+            mine = [(b2, t2) for b2, t2 in comp_next if df.operand_expr(fn, t2["args"][0]) == comp]
+            good = False
+            detail = "no loop over 0..level draws from these components"
+            for il in loops:
+                it = df.operand_expr(fn, il["next_term"]["args"][0])
+                if isinstance(it, tuple) and it[0] == "local":
+                    full = [dd for dd in df.defs_of(fn).all(it[1]) if dd[0] in ("stmt", "call")]
+                    if len(full) == 1:
+                        it = df.rvalue_expr(fn, full[0][3]["rv"]) if full[0][0] == "stmt" else df.call_expr(fn, full[0][2])
+                is_range = isinstance(it, tuple) and it[0] == "agg" and it[1].endswith("ops::range::Range") and it[3][0] == ("const", 0, "usize") and \
+                    isinstance(it[3][1], tuple) and it[3][1][0] == "param" and it[3][1][1] in level_param
+                inside = [(b2, t2) for b2, t2 in mine if b2 in il["body"]]
+                if not is_range or not inside:
+                    continue
+                every = il["head"] not in cfg.reachable(fn, [il["some_edge"][1]], blocked={b2 for b2, t2 in inside})
+                one = len(inside) == 1 and cfg.innermost_loop_of(fn, inside[0][0]) is not None and cfg.innermost_loop_of(fn, inside[0][0])[0] == il["head"]
+                outside = [(b2, t2) for b2, t2 in mine if b2 not in il["body"]]
+                before = cfg.dominates(fn, il["head"], bb) and bool(il["none_edge"]) and bb in cfg.dominated_by_edge(fn, il["none_edge"])
+                if every and one and not outside and before:
+                    good = True
+                    detail = "for _ in 0..level { components.next() } then as_path()"
+                else:
+                    detail = "loop found, but: every iteration draws=%s, exactly one draw=%s, draws outside the loop=%d, rest taken after the loop=%s" % (every, one, len(outside), before)
+            ck.require(good, rule, "the rest of a name is taken after exactly `level` components were drawn (%s)" % fn.id.split("::")[-1],
+                       detail, fn.where(t), ok_detail=detail)
+    ck.floor(rule, "places where a name is replaced by the rest of its components", nres, 2)
 
 
 def r6(ck):
